@@ -153,12 +153,13 @@ def d2(chk, prog):
         chk.ok("slot-argument-kind", "no default combiner requires an array argument (nothing to agree on)")
         return
     sites = []
-    for qn in ("skgenome.merge._flatten_tuples", "skgenome.merge._flatten_tuples_split", "skgenome.merge._squash_tuples"):
-        fi = prog.fn(qn)
+    # every function of skgenome.merge that is handed the `combine` mapping (whatever it is called)
+    takers = [fi for fi in prog.functions.values() if fi.mod == "skgenome.merge" and "combine" in fi.params]
+    if not takers:
+        raise AnalysisError("skgenome.merge: no function takes a `combine` mapping any more")
+    for fi in takers:
+        qn = fi.qn
         par = parents(fi.node)
-        names = {"combine"} & set(fi.params)
-        if not names:
-            raise AnalysisError(f"{qn}: parameter `combine` vanished")
         # combiner variables: targets of `for key, combiner in combine.items()` (also in comprehensions)
         cvars = set()
         for n in own_nodes(fi.node):
@@ -245,7 +246,9 @@ def d3(chk, prog):
              "symbols start[1:], end.cummax[:-1], bp; sibling functions must yield the same atom, and it must be the stated one")
 
     def table():
-        return Row({"start": Stub("start"), "end": Stub("end"), "empty": False, "chromosome": Stub("chromosome")})
+        rows = [Row({"chromosome": "chr1", "start": Term.sym(f"row{i}.start"), "end": Term.sym(f"row{i}.end")}) for i in range(3)]
+        return Row({"start": Stub("start"), "end": Stub("end"), "empty": False, "chromosome": Stub("chromosome"),
+                    "itertuples": lambda *a, **k: list(rows), "itertuples_rows": rows})          # (some rows: the table is not empty)
     bp = Term.sym("bp")
 
     def want(op, with_bp=True):
